@@ -650,6 +650,19 @@ func interceptorFunc(name string) func(string) bool {
 		}
 	case "any":
 		return func(s string) bool { return len(s) > 0 }
+	case "min5": // a user interceptor that rejects short candidates and accepts longer ones
+		return func(s string) bool { return len(s) >= 5 }
+	case "\\d+":
+		return interceptorFunc("digit")
+	case "[a-z]+":
+		return func(s string) bool {
+			for i := 0; i < len(s); i++ {
+				if s[i] < 'a' || s[i] > 'z' {
+					return false
+				}
+			}
+			return len(s) > 0
+		}
 	}
 	return nil
 }
@@ -670,6 +683,8 @@ func (o RouterOpts) muxOptions(e *Env, extra ...mux.Option) []mux.Option {
 			opts = append(opts, mux.WithWordInterceptor("word"))
 		case "any":
 			opts = append(opts, mux.WithAnyInterceptor("any"))
+		case "min5":
+			opts = append(opts, mux.WithInterceptor(interceptorFunc("min5"), "min5"))
 		}
 	}
 	if o.URLDomain != "" {
